@@ -284,7 +284,7 @@ package tcp
 //@   ensures ghost(tcpSegs) == old(ghost(tcpSegs)) + 1
 //@   ensures ghost(lastTCPFlags) == int(flags) && ghost(lastTCPSeq) == int(uint32(seq)) && ghost(lastTCPAck) == int(uint32(ack))
 //@   loop 1 invariant -1 <= rangeindex && rangeindex < len(data.views)
-//@   modifies everything()
+//@   modifies everything(), ghost(tcpSegs), ghost(lastTCPFlags), ghost(lastTCPSeq), ghost(lastTCPAck)
 
 // A parsed segment: the fields are those of the header; the data offset must lie between 20
 // and the bytes present in the first view, otherwise parsing fails and nothing is read beyond
@@ -304,7 +304,7 @@ package tcp
 //@   ensures ghost(tcpSegs) == old(ghost(tcpSegs)) + 1 && ghost(lastTCPFlags) == int(flagRst | flagAck)
 //@   ensures ghost(lastTCPSeq) == ite(old(s.flags) & flagAck != 0, int(uint32(old(s.ackNumber))), 0)
 //@   ensures ghost(lastTCPAck) == int(uint32(old(s.sequenceNumber) + seqnum.Value(old(s.logicalLen()))))
-//@   modifies everything()
+//@   modifies everything(), ghost(tcpSegs), ghost(lastTCPFlags), ghost(lastTCPSeq), ghost(lastTCPAck)
 
 // A segment for which no socket exists: unparsable segments and resets are not answered;
 // anything else is answered by exactly one reset.
@@ -312,4 +312,4 @@ package tcp
 //@   requires r != nil && len(vv.views) >= 1 && len(vv.views[0]) >= header.TCPMinimumSize && 0 <= vv.size && vv.size <= 1 << 40
 //@   ensures ghost(tcpSegs) == old(ghost(tcpSegs)) || (result && ghost(tcpSegs) == old(ghost(tcpSegs)) + 1 && ghost(lastTCPFlags) == int(flagRst | flagAck) && old(vv.views[0][13]) & flagRst == 0)
 //@   ensures implies(result && old(vv.views[0][13]) & flagRst != 0, ghost(tcpSegs) == old(ghost(tcpSegs)))
-//@   modifies everything()
+//@   modifies everything(), ghost(tcpSegs), ghost(lastTCPFlags), ghost(lastTCPSeq), ghost(lastTCPAck)
